@@ -149,3 +149,46 @@ func ZvC20_Throttle_Sequential() {
 	vrt.Quiesce()
 	vrt.Cover("C20/Throttle/end")
 }
+
+// Throttle, concurrent arrangement: a consumer blocked in Next while a producer issues
+// Call, (time passes), Call, (time passes), Cancel — every interleaving at the mutex/condition
+// granularity, symbolic clock. The grant instants are bracketed from both threads: the first grant
+// cannot precede the producer's clock read before its first Call (c0), the second is not later than
+// the consumer's read after its second Next (b1); so "grants at least one period apart" implies
+// b1 - c0 >= period. Cancel must release a pending Next (otherwise: deadlock, reported by the
+// scheduler) and every later Next returns false.
+func ZvC20_Throttle_Concurrent() {
+	period := zvWait()
+	trailing := vrt.Choice(2) == 1
+	t := NewThrottle(time.Duration(period), trailing)
+	nNext := 1 + vrt.Choice(2)
+	var ok [3]bool
+	var b [3]int64
+	var c0 int64
+	got := 0
+	vrt.Par(func() {
+		for i := 0; i < nNext; i++ {
+			ok[i] = t.Next()
+			b[i] = vrt.NowNano()
+			if !ok[i] {
+				return
+			}
+			got++
+		}
+	}, func() {
+		c0 = vrt.NowNano()
+		t.Call()
+		vrt.Advance()
+		t.Call()
+		vrt.Advance()
+		t.Cancel()
+	})
+	vrt.Assert(got <= 2, "C20/Throttle/no-more-grants-than-triggers")
+	if got == 2 {
+		vrt.AssertUnless(trailing, b[1]-c0 >= period, "C20/Throttle/at-most-one-permission-per-period")
+		vrt.Cover("C20/Throttle/concurrent-two-grants")
+	}
+	vrt.Assert(!t.Next(), "C20/Throttle/Next-false-after-cancel")
+	vrt.Assert(vrt.LocksHeld() == 0, "C20/Throttle/lock-released")
+	vrt.Quiesce()
+}
